@@ -108,6 +108,26 @@ def _tails() -> typing.List[Entry]:
         ("InDs", "uint8 x\n@extent 2 * 8\n", "small fixed-size delimited leaf"),
         ("T_dtail", "uint8 a\nInDs.1.0 d\n@sealed\n", "fixed-size delimited nested type (extent < 8 bytes) at the tail"),
         ("T_f16tail", "uint8 a\nfloat16 h\n@sealed\n", "aligned float16 as the final field"),
+        # added after seeded changes that the quick corpus missed (DESIGN.md 10.9): each is a *layout feature*, not a fix for one mutant
+        ("T_u12n", "uint12 a\nuint4 b\nuint20 c\nuint4 d\n@sealed\n",
+         "byte-aligned unsigned fields whose width is not a byte multiple, each followed by a sub-byte field (a whole-byte copy picks up the neighbour)"),
+        ("T_i12n", "saturated int12 a\nuint4 b\nsaturated int33 c\nuint7 d\n@sealed\n",
+         "byte-aligned signed fields whose width is not a byte multiple, each followed by a sub-byte field"),
+        ("V_nib", "uint4[<=2] a\nIn1.1.0 b\nuint8 tail\n@sealed\n",
+         "variable array of sub-byte elements followed by a composite: the offset set {8,12,16} has aligned extremes but is not aligned (padding needed for odd counts)"),
+        ("V_nibu", "uint4[<=2] a\nU_prim.1.0 u\n@sealed\n", "same, followed by a union"),
+        ("C_agg", "In1.1.0 a\nIn2.1.0 b\n@sealed\n", "pure aggregate: a struct made only of composite fields (no primitive of its own)"),
+        ("C_aggd", "InDs.1.0 a\nIn1.1.0 b\n@extent 16 * 8\n", "delimited pure aggregate with a delimited member"),
+    ]
+
+
+def _ser_only() -> typing.List[Entry]:
+    """capacity equal to the largest value the implicit length prefix can hold (2^8-1): 'the prefix cannot exceed the capacity' holds on the
+    wire but not for an in-memory count.  Names start with S_: exercised by the SERIALIZATION queries only (C, Python); deserializing a
+    255-element array with a symbolic count is outside the budget (stated in the evidence)."""
+    return [
+        ("S_cap255", "uint8[<=255] a\n@sealed\n", "variable byte array whose capacity is the maximum of its uint8 length prefix"),
+        ("S_bcap255", "bool[<=255] a\n@sealed\n", "variable bit array whose capacity is the maximum of its uint8 length prefix"),
     ]
 
 
@@ -139,7 +159,7 @@ def _metadata() -> typing.List[Entry]:
 
 def quick_names() -> typing.List[str]:
     """about 40 types for the quick tier (every feature family, fewer offsets/widths)"""
-    sel = [n for n, _, _ in _arrays() + _composites() + _unions() + _services() + _tails() if n != "C_arrd"]
+    sel = [n for n, _, _ in _arrays() + _composites() + _unions() + _services() + _tails() + _ser_only() if n != "C_arrd"]
     pr = [n for n, _, _ in _prims()]
     sel += pr[::3]
     sel += ["W_u1", "W_u63", "W_i2", "W_i33"]
@@ -147,7 +167,7 @@ def quick_names() -> typing.List[str]:
 
 
 def all_entries(seed: int = 0, n_random: int = 0, metadata: bool = False) -> typing.List[Entry]:
-    out = _prims() + _wide_widths() + _arrays() + _composites() + _unions() + _services() + _tails()
+    out = _prims() + _wide_widths() + _arrays() + _composites() + _unions() + _services() + _tails() + _ser_only()
     if metadata:
         out += _metadata()
     rng = random.Random(seed)
